@@ -237,6 +237,7 @@ def run(ctx: Ctx) -> int:
                     discarders.add(fn.name)
         dcalls = [c for c in calls_in(err) if call_leaf(c) in discarders]
         leaving = [r for r in walk_local(err) if isinstance(r, ast.Raise)] + [c for c in calls_in(err) if call_leaf(c) in ("exit", "_error_handler")]  # a user error handler may raise or exit itself
+        ctx.need(set(ge.cn(leaving)) <= ge.live_nodes() and set(ge.cn(dcalls)) <= ge.live_nodes(), "ArgumentParser.error: the leaving points and the discard call are reachable in the CFG (a dominance claim about dead code is vacuous)")
         ok = bool(dcalls) and ge.dominates(ge.cn(dcalls), ge.cn(leaving)) and all(c.args and root_name(c.args[0]) == "self" for c in dcalls)
         ctx.oblige("C09.b", ok, dcalls[0] if dcalls else err, f"every reported parse error first discards a pending `{a}` request (walking up to the root parser)" if ok else f"a parse error leaves a pending `{a}` request on the parser: the next successful parse prints the configuration and exits", fn=err, construct=f"discard {a} on error")
 
